@@ -5,6 +5,8 @@ import (
 	"net/http"
 	"net/http/httputil"
 	"net/url"
+	"slices"
+	"strings"
 
 	"github.com/vulcand/oxy/v2/utils"
 )
@@ -18,6 +20,7 @@ func New(passHostHeader bool) *httputil.ReverseProxy {
 			modifyRequest(request)
 
 			h.Rewrite(request)
+			protectForwardingHeaders(request.Header)
 
 			if !passHostHeader {
 				request.Host = request.URL.Host
@@ -28,6 +31,36 @@ func New(passHostHeader bool) *httputil.ReverseProxy {
 }
 
 // Modify the request to handle the target URL.
+// protectForwardingHeaders removes the names of the X-Forwarded-* / X-Real-Ip headers
+// from the client's Connection header. The reverse proxy strips every header named
+// there AFTER the Director has run, so a client could otherwise make the proxy drop
+// the forwarding headers it has just set.
+func protectForwardingHeaders(header http.Header) {
+	values, ok := header[Connection]
+	if !ok {
+		return
+	}
+	kept := make([]string, 0, len(values))
+	for _, value := range values {
+		var tokens []string
+		for _, token := range strings.Split(value, ",") {
+			name := http.CanonicalHeaderKey(strings.TrimSpace(token))
+			if name == "" || slices.Contains(XHeaders, name) {
+				continue
+			}
+			tokens = append(tokens, strings.TrimSpace(token))
+		}
+		if len(tokens) > 0 {
+			kept = append(kept, strings.Join(tokens, ", "))
+		}
+	}
+	if len(kept) == 0 {
+		header.Del(Connection)
+		return
+	}
+	header[Connection] = kept
+}
+
 func modifyRequest(outReq *http.Request) {
 	u := getURLFromRequest(outReq)
 
@@ -35,7 +68,7 @@ func modifyRequest(outReq *http.Request) {
 	outReq.URL.RawPath = u.RawPath
 	outReq.URL.RawQuery = u.RawQuery
 	outReq.URL.ForceQuery = u.ForceQuery // keep a bare trailing "?"
-	outReq.RequestURI = "" // Outgoing request should not have RequestURI
+	outReq.RequestURI = ""               // Outgoing request should not have RequestURI
 
 	outReq.Proto = "HTTP/1.1"
 	outReq.ProtoMajor = 1
